@@ -131,6 +131,12 @@ class Extractor:
                                                           (isinstance(f, ast.Attribute) and isinstance(f.value, ast.Name) and f.value.id[:1].isupper()) else None)
             if hname is not None and hname in self.funcs and not any(isinstance(a_, ast.Starred) for a_ in e.args):
                 return self.inline(self.funcs[hname], [self.eval(a_) for a_ in e.args], {k.arg: self.eval(k.value) for k in e.keywords if k.arg})
+            if isinstance(f, ast.Attribute) and f.attr == 'sub' and isinstance(f.value, ast.Name) and f.value.id == 're' and len(e.args) == 3 and not e.keywords:
+                pat, tpl = self.const_of(e.args[0]), self.const_of(e.args[1])
+                x = self.eval(e.args[2])
+                if pat is None or tpl is None or x.T is None:
+                    raise FstError('re.sub with a non-constant pattern / template or an untracked subject')
+                return Val(x.T.then(Fst.resub(self.A, pat, tpl)))
             if isinstance(f, ast.Attribute):
                 base = self.eval(f.value)
                 args = [self.const_of(a) for a in e.args]
@@ -307,6 +313,15 @@ class Extractor:
                         v = self.eval(st.value)
                     except FstError:
                         v = None          # returns an untracked object (e.g. the token): callers read the environment
+                        # a node built around the tracked string, e.g. `return Variable(value=value, ...)`: the `value` argument
+                        rv = st.value
+                        if isinstance(rv, ast.Call) and isinstance(rv.func, ast.Name) and rv.func.id[:1].isupper():
+                            arg = next((k.value for k in rv.keywords if k.arg == 'value'), rv.args[0] if rv.args else None)
+                            if arg is not None:
+                                try:
+                                    v = self.eval(arg)
+                                except FstError:
+                                    v = None
                 self.paths.append((dom, v, dict(self.env)))
                 return
             elif isinstance(st, ast.If) and self.static is not None and self.static(st.test, self) is not None:
